@@ -13,7 +13,7 @@ SPECS = [
   [sub('worker.go', "\t\t\t\t\tif w.pool.Remove(node) {\n\t\t\t\t\t\tvhook(\"reap.removed\", node)\n\t\t\t\t\t\tnode.Value.Stop()\n\t\t\t\t\t\tw.pool.Cache.Put(node)\n\t\t\t\t\t\tvhook(\"reap.stopped\", node)\n\t\t\t\t\t}",
        "\t\t\t\t\tw.pool.Remove(node)\n\t\t\t\t\t{\n\t\t\t\t\t\tvhook(\"reap.removed\", node)\n\t\t\t\t\t\tnode.Value.Stop()\n\t\t\t\t\t\tw.pool.Cache.Put(node)\n\t\t\t\t\t\tvhook(\"reap.stopped\", node)\n\t\t\t\t\t}")]),
  ('R03', ['C06'], 'revert of fix e03e9ca: curProcessing is raised after the dequeue, not before', 'WaitUntilFinished called between the dispatcher\'s dequeue and its increment',
-  [sub('worker.go', "\tfor {\n\t\tprocessing := w.curProcessing.Load()\n\n\t\tif processing >= w.concurrency.Load() {\n\t\t\treturn nil\n\t\t}\n\n\t\tif w.curProcessing.CompareAndSwap(processing, processing+1) {\n\t\t\tbreak\n\t\t}\n\t}\n", "\treserved := false\n"),
+  [sub('worker.go', "\tfor {\n\t\tprocessing := w.curProcessing.Load()\n\t\tvhook(\"disp.cas.load\")\n\n\t\tif processing >= w.concurrency.Load() {\n\t\t\treturn nil\n\t\t}\n\n\t\tif w.curProcessing.CompareAndSwap(processing, processing+1) {\n\t\t\tbreak\n\t\t}\n\t}\n", "\tvhook(\"disp.cas.load\")\n\treserved := false\n"),
    sub('worker.go', "\tvhook(\"disp.deq\", v, ok, ackId)\n", "\tvhook(\"disp.deq\", v, ok, ackId)\n\tw.curProcessing.Add(1)\n\treserved = true\n"),
    sub('worker.go', "\t\tif !dispatched {\n\t\t\tw.releaseWaiters(", "\t\tif !dispatched && reserved {\n\t\t\tw.releaseWaiters(")]),
  ('R04', [], 'EQUIVALENT: revert of fix 77c7201 alone (Broadcast without w.mx): harmless since the event loop re-releases the waiters', 'nothing: the checks must stay quiet',
@@ -31,15 +31,14 @@ SPECS = [
   [sub('worker.go', "\tif w.status.Load() != initiated {\n\t\treturn ErrRunningWorker\n\t}\n\tvhook(\"start.enter\")", "\tif w.IsRunning() {\n\t\treturn ErrRunningWorker\n\t}\n\tvhook(\"start.enter\")")]),
  ('R10', ['C15', 'C17'], 'revert of fix 79d60fc: a persistent priority queue is registered twice', 'binding a persistent priority queue next to other queues (round robin share, worker NumPending)',
   [sub('persistent_priority.go', "\t// newPriorityQueue registers pq with the worker\n", "\tw.queues.Register(pq)\n\n")]),
- ('R11', ['C16'], 'revert of fix 4a83ac2 (queue.go Add only): Queued is stored after the job is visible', 'a fast worker finishes the job before the submitter stores Queued',
-  [sub('queue.go', "\t// must precede Enqueue: once visible, the job may already be Processing or Closed\n\tj.changeStatus(queued)\n\tif ok := q.internalQueue.Enqueue(j); !ok {\n\t\tvhook(\"add.enq\", j, false)\n\t\tj.Close()\n\t\treturn nil, false\n\t}\n\tvhook(\"add.enq\", j, true)\n\n\tq.w.Metrics().incSubmitted()\n",
-       "\tif ok := q.internalQueue.Enqueue(j); !ok {\n\t\tvhook(\"add.enq\", j, false)\n\t\tj.Close()\n\t\treturn nil, false\n\t}\n\tvhook(\"add.enq\", j, true)\n\n\tq.w.Metrics().incSubmitted()\n\tj.changeStatus(queued)\n", 3)]),
+ ('R11', ['C16'], 'revert of fix 4a83ac2 (the three Add bodies of queue.go): Queued is stored after the job is visible', 'a fast worker finishes the job before the submitter stores Queued',
+  [sub('queue.go', "\t// must precede Enqueue: once visible, the job may already be Processing or Closed\n\tj.changeStatus(queued)\n\tvhook(\"add.pre\", j)\n\tif ok := q.internalQueue.Enqueue(j); !ok {\n\t\tvhook(\"add.enq\", j, false)\n\t\tj.Close()\n\t\treturn nil, false\n\t}\n\tvhook(\"add.enq\", j, true)\n\n\tq.w.Metrics().incSubmitted()\n",
+       "\tvhook(\"add.pre\", j)\n\tif ok := q.internalQueue.Enqueue(j); !ok {\n\t\tvhook(\"add.enq\", j, false)\n\t\tj.Close()\n\t\treturn nil, false\n\t}\n\tvhook(\"add.enq\", j, true)\n\n\tq.w.Metrics().incSubmitted()\n\tj.changeStatus(queued)\n", 3)]),
  ('R12', ['C17'], 'revert of fix 5b95451: FIFO Len() reads its two counters without the lock', 'a reader between an Enqueue+Dequeue pair or a Purge',
   [sub('internal/queues/queue.go', "\tq.mx.RLock()\n\tdefer q.mx.RUnlock()\n\n\twriteCount", "\twriteCount")]),
  ('R13', ['C10'], 'revert of fix 0e304ea: Close and the dispatcher change the job status with check-then-store', 'Close between the dispatcher\'s closed-check and its store (or two concurrent Close calls)',
-  [sub('job.go', "\tfor {\n\t\ts := j.status.Load()\n\n\t\tif s == closed {\n\t\t\treturn false\n\t\t}\n\n\t\tif j.status.CompareAndSwap(s, processing) {\n\t\t\treturn true\n\t\t}\n\t}", "\tif j.status.Load() == closed {\n\t\treturn false\n\t}\n\n\truntime.Gosched()\n\tj.status.Store(processing)\n\n\treturn true"),
-   sub('job.go', "\t\tif j.status.CompareAndSwap(s, closed) {\n\t\t\treturn nil\n\t\t}", "\t\truntime.Gosched()\n\t\tj.status.Store(closed)\n\n\t\treturn nil"),
-   sub('job.go', "import (\n\t\"encoding/json\"", "import (\n\t\"runtime\"\n\t\"encoding/json\"")]),
+  [sub('job.go', "\tfor {\n\t\ts := j.status.Load()\n\t\tvhook(\"job.sp.load\", j)\n\n\t\tif s == closed {\n\t\t\treturn false\n\t\t}\n\n\t\tif j.status.CompareAndSwap(s, processing) {\n\t\t\treturn true\n\t\t}\n\t}", "\ts := j.status.Load()\n\tvhook(\"job.sp.load\", j)\n\n\tif s == closed {\n\t\treturn false\n\t}\n\n\tj.status.Store(processing)\n\n\treturn true"),
+   sub('job.go', "\t\tif j.status.CompareAndSwap(s, closed) {\n\t\t\treturn nil\n\t\t}", "\t\tj.status.Store(closed)\n\n\t\treturn nil")]),
  ('R14', ['C14'], 'revert of fixes 975fa6b + c5d97bc: the context listener stops the worker whatever its current context is', 'Restart of a running worker configured WithContext',
   [sub('worker.go', "\tif listened != nil {\n\t\tw.mx.RLock()\n\t\tcurrent := w.ctx == listened\n\t\tw.mx.RUnlock()\n\n\t\tif !current {\n\t\t\treturn nil\n\t\t}\n\t}\n", "")]),
  ('R16', ['C18'], 'revert of fix 82a605b: the idle-worker remover goroutine never ends and Restart keeps the old ticker', 'Stop / Restart cycles of a worker with idle expiry',
